@@ -30,7 +30,38 @@ pub struct FileCase {
     pub class: &'static str,
 }
 
+/// what is written to disk for a text: UTF-8, except that a text which begins with the comment
+/// `(*1252 ` is written in Windows-1252 (every character of such a text is in that repertoire and
+/// the bytes are not valid UTF-8: the documented fallback reads them back as the same text)
+pub fn disk(text: &str) -> Vec<u8> {
+    if text.starts_with("(*1252 ") {
+        let (b, _, unmappable) = encoding_rs::WINDOWS_1252.encode(text);
+        if !unmappable && std::str::from_utf8(&b).is_err() {
+            return b.to_vec();
+        }
+    }
+    text.as_bytes().to_vec()
+}
+
 pub fn gen_files(t: &mut Tape, gates: &Gates) -> Vec<FileCase> {
+    let mut v = gen_files_utf8(t, gates);
+    // now and then the whole set comes from an editor that saves Windows-1252: a comment with 1 .. 1000
+    // characters beyond ASCII in front of every file whose text that encoding can hold (the files
+    // are the same files: nothing about the contract depends on how many bytes a character takes)
+    if t.ratio(1, 8) && gates.want("FILE_SET_IN_WINDOWS_1252") {
+        for f in v.iter_mut() {
+            let k = *t.pick(&[1usize, 8, 40, 200, 1000]);
+            let body: String = (0..k).map(|i| ['é', 'ü', 'ß', 'Ä', '€', 'ñ', '©', 'µ', '½'][(i * 7 + k) % 9]).collect();
+            let cand = format!("(*1252 {} *)\n{}", body, f.text);
+            if !encoding_rs::WINDOWS_1252.encode(&cand).2 {
+                f.text = cand;
+            }
+        }
+    }
+    v
+}
+
+fn gen_files_utf8(t: &mut Tape, gates: &Gates) -> Vec<FileCase> {
     // 1..4 files, now and then 8..21 (a loader that works in batches, chunks or threads has more than
     // one way to lose the last few)
     let n = if t.ratio(1, 12) && gates.want("LARGE_FILE_SET") { 8 + t.below(14) } else { 1 + t.below(4) };
@@ -192,7 +223,7 @@ fn check_tape(tape: &[u8], gates: &Gates, codes: &[String], stats: &mut Stats, c
     let mut paths = vec![];
     for (i, f) in files.iter().enumerate() {
         let p = sub.join(crate::drive::set_file_name(i));
-        std::fs::write(&p, f.text.as_bytes()).unwrap();
+        std::fs::write(&p, &disk(&f.text)).unwrap();
         paths.push(p.to_string_lossy().to_string());
     }
     let inputs = json!({"files": files.iter().map(|f| json!({"class": f.class, "text": f.text})).collect::<Vec<_>>()});
@@ -276,7 +307,7 @@ fn check_tape(tape: &[u8], gates: &Gates, codes: &[String], stats: &mut Stats, c
             if all_links || i == 0 {
                 made_link |= std::os::unix::fs::symlink(sub.join(&name), linked.join(&name)).is_ok();
             } else {
-                let _ = std::fs::write(linked.join(&name), f.text.as_bytes());
+                let _ = std::fs::write(linked.join(&name), &disk(&f.text));
             }
         }
         if made_link {
@@ -305,7 +336,7 @@ fn check_tape(tape: &[u8], gates: &Gates, codes: &[String], stats: &mut Stats, c
         let bad = dir.path.join("unloadable");
         let _ = std::fs::create_dir_all(&bad);
         for (i, f) in files.iter().enumerate() {
-            let _ = std::fs::write(bad.join(crate::drive::set_file_name(i)), f.text.as_bytes());
+            let _ = std::fs::write(bad.join(crate::drive::set_file_name(i)), &disk(&f.text));
         }
         let entry = bad.join(*choice.pick(&["zz_entry.st", "aa_entry.st", "entry.ST"]));
         let made = match choice.below(3) {
@@ -383,10 +414,10 @@ fn check_tape(tape: &[u8], gates: &Gates, codes: &[String], stats: &mut Stats, c
         for (i, f) in files.iter().enumerate() {
             if i < k {
                 let p = dir.path.join(format!("out_{}", crate::drive::set_file_name(i)));
-                std::fs::write(&p, f.text.as_bytes()).unwrap();
+                std::fs::write(&p, &disk(&f.text)).unwrap();
                 outside.push(p.to_string_lossy().to_string());
             } else {
-                std::fs::write(part.join(crate::drive::set_file_name(i)), f.text.as_bytes()).unwrap();
+                std::fs::write(part.join(crate::drive::set_file_name(i)), &disk(&f.text)).unwrap();
             }
         }
         let d = part.to_string_lossy().to_string();
@@ -482,7 +513,7 @@ fn check_tape(tape: &[u8], gates: &Gates, codes: &[String], stats: &mut Stats, c
                 let rest = dir.path.join(format!("rest_{}", cmd));
                 std::fs::create_dir_all(&rest).unwrap();
                 for (i, f) in files.iter().enumerate().skip(1) {
-                    std::fs::write(rest.join(crate::drive::set_file_name(i)), f.text.as_bytes()).unwrap();
+                    std::fs::write(rest.join(crate::drive::set_file_name(i)), &disk(&f.text)).unwrap();
                 }
                 let first = paths[0].clone();
                 let r = rest.to_string_lossy().to_string();
@@ -722,7 +753,7 @@ pub fn witness(w: &Value, codes: &[String]) -> Result<(), String> {
         "files" => {
             let mut a = vec!["check".to_string()];
             for (i, f) in w["files"].as_array().cloned().unwrap_or_default().iter().enumerate() {
-                a.push(dir.write(&format!("f{}.st", i), f.as_str().unwrap_or("").as_bytes()).to_string_lossy().to_string());
+                a.push(dir.write(&format!("f{}.st", i), &disk(f.as_str().unwrap_or(""))).to_string_lossy().to_string());
             }
             a
         }
@@ -733,7 +764,7 @@ pub fn witness(w: &Value, codes: &[String]) -> Result<(), String> {
             let mut files = vec!["check".to_string()];
             for (i, f) in w["files"].as_array().cloned().unwrap_or_default().iter().enumerate() {
                 let p = d.join(format!("f{}.st", i));
-                std::fs::write(&p, f.as_str().unwrap_or("").as_bytes()).unwrap();
+                std::fs::write(&p, &disk(f.as_str().unwrap_or(""))).unwrap();
                 files.push(p.to_string_lossy().to_string());
             }
             let of = observe_check(&files).ok_or("timeout")?;
